@@ -678,6 +678,7 @@ class _HTTPConnection(httputil.HTTPMessageDelegate):
             ):
                 new_request.method = "GET"
                 new_request.body = None  # type: ignore
+                new_request.body_producer = None
                 for h in [
                     "Content-Length",
                     "Content-Type",
